@@ -111,12 +111,14 @@ def install_solver_counter():
     orig = z3.Solver.check
 
     def check(self, *a):
-        t = time.time()
+        with NoTracing():
+            t = time.perf_counter()
         try:
             return orig(self, *a)
         finally:
-            stats["calls"] += 1
-            stats["seconds"] += time.time() - t
+            with NoTracing():
+                stats["calls"] += 1
+                stats["seconds"] += time.perf_counter() - t
 
     z3.Solver.check = check
     return stats
